@@ -161,7 +161,11 @@ pub fn o04(dir: &str, thorough: bool, seed: u64) {
                 put_ctx(&mut out, &xg, &ctx);
                 // a batch with planted overlaps: sub-formulae shared up to renaming, inside/outside domains
                 let n = 2 + rng.below(3);
-                let base = closed_tree(&mut rng, &xg, true, 3, 6, None);
+                let base = if xg.k >= 2 && rng.chance(1, 3) {
+                    swapped_duplicates(&mut rng, &eval_spec(&xg, true), xg.k >= 3)
+                } else {
+                    closed_tree(&mut rng, &xg, true, 3, 6, None)
+                };
                 let subs: Vec<HctlTreeNode> = subtrees(&base).into_iter().cloned().collect();
                 let mut batch: Vec<String> = vec![base.to_string()];
                 for _ in 1..n {
@@ -553,6 +557,15 @@ pub fn o12(dir: &str, thorough: bool, seed: u64) {
         ("!{x}: AG EF AX {x}", "!{x}: AG EF (AX {x} & true)"),
         ("3{x}: AX {x}", "3{x}: AX ({x} & {x})"),
         ("!{x}: !{y}: AX {x}", "!{x}: !{y}: AX ({x} & true)"),
+        // a different variable under the pattern's operators
+        ("3{x}: !{y}: AX {x}", "3{x}: !{y}: AX ({x} & {x})"),
+        ("V{x}: !{y}: AX {x}", "V{x}: !{y}: AX ({x} & {x})"),
+        ("3{x}: @{x}: EF (!{y}: AX {x})", "3{x}: @{x}: EF (!{y}: AX ({x} | false))"),
+        ("!{x}: EX (!{y}: AX {x})", "!{x}: EX (!{y}: AX ({x} & true))"),
+        ("3{x}: !{y}: AG EF {x}", "3{x}: !{y}: AG EF ({x} & {x})"),
+        ("!{x}: EX (!{y}: AG EF {x})", "!{x}: EX (!{y}: AG (true & EF {x}))"),
+        ("V{x}: (a | (!{y}: AG EF {x}))", "V{x}: (a | (!{y}: AG EF ({x} | false)))"),
+        ("3{x} in %d%: !{y}: AX {x}", "3{x} in %d%: !{y}: AX ({x} & {x})"),
     ];
     for _ in 0..rounds {
         for xg in graphs(thorough, &[2]) {
@@ -634,6 +647,10 @@ pub fn o14(dir: &str, thorough: bool, seed: u64) {
                 put_ctx(&mut out, &xg, &ctx);
                 let mut spec = eval_spec(&xg, true);
                 spec.props.push(s("nope"));
+                for n in xg.var_names.iter().take(2) {
+                    spec.props.push(format!("{n}_extra_0"));
+                    spec.props.push(format!("{n}_extra_1"));
+                }
                 let size = 1 + rng.below(9);
                 let t = rand_tree(&mut rng, &spec, size, &mut Vec::new(), i % 3 != 0);
                 let mut f = if rng.chance(1, 2) {
